@@ -175,11 +175,11 @@ func vTree(out []byte, shape int) ([]byte, core.Object) {
 // H_C06_write_parse_roundtrip: an object tree written under any legal spelling parses back to the same tree in both parsers.
 //
 //symgo:harness prop=C06 kernel=K2-roundtrip
-//symgo:desc tree shapes {leaf, [leaf leaf], <</K leaf>>, [[leaf] leaf]} (quick: leaf and <</K leaf>>); leaves: integer (sign, 1..3 symbolic digits), literal string (0..2 symbolic bytes spelled raw / octal / named escape), hex string (1..2 bytes, symbolic digit case), name (1..2 symbolic bytes raw or #xx), true, false, null; token separator chosen once per document from {space, LF, CRLF, TAB+space, comment line} (quick: first three; delimiters always separated); both core.ParseObject and contentstream.Parse (as the single operand of q) must return the tree
+//symgo:desc tree shapes {leaf, [leaf leaf], <</K leaf>>, [[leaf] leaf]} (quick: leaf and <</K leaf>>); leaves: integer (sign, 1..3 symbolic digits), literal string (0..2 symbolic bytes spelled raw / octal / named escape), hex string (1..2 bytes, symbolic digit case), name (1..2 symbolic bytes raw or #xx), true, false, null; token separator chosen once per document from {space, LF, CRLF, comment ended by LF, comment ended by CR, TAB+space, bare CR} (quick: first five; delimiters always separated); both core.ParseObject and contentstream.Parse (as the single operand of q) must return the tree
 func H_C06_write_parse_roundtrip() {
-	nshapes, nseps := 1, 2
+	nshapes, nseps := 1, 4
 	if vTier() > 0 {
-		nshapes, nseps = 3, 4
+		nshapes, nseps = 3, 6
 	}
 	switch vAnyIntIn(0, nseps) {
 	case 0:
@@ -189,9 +189,13 @@ func H_C06_write_parse_roundtrip() {
 	case 2:
 		vSep = []byte("\r\n")
 	case 3:
+		vSep = []byte(" %c\n") // comment ended by LF
+	case 4:
+		vSep = []byte(" %c\r") // comment ended by a bare CR
+	case 5:
 		vSep = []byte("\t ")
 	default:
-		vSep = []byte(" %c\n")
+		vSep = []byte("\r")
 	}
 	shape := vAnyIntIn(0, nshapes)
 	if vTier() == 0 && shape == 1 {
